@@ -76,7 +76,7 @@ bool plan_from_text(const std::string &text, Plan &p) {
 struct LaneDef { const char *name; const char *prop; };
 static const LaneDef kLanes[] = {
     {"array", "C01"}, {"tree", "C02"}, {"names", "C03"}, {"delete", "C04"}, {"reject", "C08"}, {"modes", "C09"},
-    {"version", "C10"}, {"durable", "C11"}, {"xkill", "C11"}, {"ids", "C12"}, {"dims", "C13"}, {"props", "C14"}, {"frame", "C15"}, {"abuse", "C16"},
+    {"version", "C10"}, {"durable", "C11"}, {"xkill", "C11"}, {"ids", "C12"}, {"idhist", "C12"}, {"dims", "C13"}, {"props", "C14"}, {"frame", "C15"}, {"abuse", "C16"},
 };
 bool lane_known(const std::string &l) { for (auto &d : kLanes) if (l == d.name) return true; return false; }
 const char *lane_property(const std::string &l) { for (auto &d : kLanes) if (l == d.name) return d.prop; return "?"; }
@@ -117,8 +117,8 @@ static std::vector<int> lane_weights(const std::string &lane, Rng &r) {
         w[OP_arr_write] = 5; w[OP_reopen] = 12; w[OP_flush] = 4; w[OP_kill] = 4; w[OP_clock] = 4; w[OP_mk_graph] = 3;
         if (lane == "durable") { w[OP_flush] = 14; w[OP_kill] = 14; w[OP_flush_fault] = 6; w[OP_use_stale] = 14; w[OP_keep] = 4; w[OP_drop] = 1; w[OP_reopen] = 10;
                                  w[OP_arr_read] = 6; w[OP_frame_read_row] = 4; w[OP_dim_read] = 3; }
-    } else if (lane == "names") {
-        w[OP_mk_graph] = 4;
+    } else if (lane == "names" || lane == "idhist") {
+        w[OP_mk_graph] = 4; if (lane == "idhist") { w[OP_force_id] = 3; w[OP_clock] = 6; }
         w_set(w, create_core, 14); w_set(w, deletes, 7); w[OP_prop_create] = 12; w[OP_feat_create] = 8; w[OP_tag_addref] = 10; w[OP_tag_rmref] = 5;
         w[OP_group_add] = 10; w[OP_group_rm] = 5; w[OP_add_source] = 10; w[OP_rm_source] = 5; w[OP_reopen] = 10; w[OP_set_sources] = 2; w[OP_tag_setrefs] = 2; w[OP_group_set] = 2;
     } else if (lane == "delete") {
@@ -184,8 +184,10 @@ Plan generate_plan(const std::string &lane, uint64_t seed, int tier) {
     // names of every length: one "long" length per run, drawn either uniformly or next to a power of two, used with +-1 around it
     // (a name of a given length is always the same string, so long names collide with one another like short ones do)
     int long_len = r.chance(1, 2) ? r.range(17, 300) : (1 << r.range(4, 8)) + r.range(-2, 2);
-    auto long_name = [&](int len) { std::string n = "L" + std::to_string(len) + "_"; while ((int) n.size() < len) n += (char) ('a' + (n.size() % 26)); n.resize((size_t) (len < 1 ? 1 : len)); return n; };
     bool reject_lane = lane == "reject";
+    // path-fitted names (see World::resolve_name): a few per cent of all names, more where deleting is the subject; half of them aim the
+    // entity's own path at the boundary, the other half leave room for the suffix of a link to it ("/references/<id>" and the like)
+    int fit_hi = lane == "delete" ? 24 : 17;
     // every plan starts with a little structure
     auto mk = [&](int kind) {
         Op op; op.kind = kind;
@@ -193,7 +195,7 @@ Plan generate_plan(const std::string &lane, uint64_t seed, int tier) {
         op.a[5] = r.chance(1, 30) ? 1 : (int) r.below(1000) + 2;   // a[5]==1 selects rare variants (name = sibling id)
         op.sub = r.next() >> 1;
         int ns = r.range(0, 99);
-        op.s = ns < 3 ? "" : ns < 6 ? "a/b" : ns < 14 ? long_name(long_len + r.range(-1, 1)) : kNamePool[r.below((uint64_t) s.name_pool)];
+        op.s = ns < 3 ? "" : ns < 6 ? "a/b" : ns < 14 ? long_name(long_len + r.range(-1, 1)) : ns < fit_hi ? "@fit:" + std::to_string((1 << r.range(6, 9)) + r.range(-1, 1) - (r.chance(1, 2) ? 0 : r.range(1, 64))) : kNamePool[r.below((uint64_t) s.name_pool)];
         // the reject lane draws its variant selectors from a small range half of the time: the invalid twins of an operation sit at
         // small residues of these selectors, so this makes every rejection class an everyday event there
         if (reject_lane && r.chance(1, 2)) for (int k = 2; k < 5; k++) op.a[k] = (int) r.below(8);
@@ -220,7 +222,7 @@ Plan generate_plan(const std::string &lane, uint64_t seed, int tier) {
     if (lane == "props") { Op *o = pre(OP_create_section, "a"); o->a[1] = 0; pre(OP_prop_create, "b")->a[3] = 0; }
     else if (lane == "frame") { Op *o = pre(OP_create_frame, "a"); o->a[1] = 0; o->a[2] = 0; pre(OP_frame_rows, "a"); }
     else if (lane == "dims" || lane == "array") { Op *o = pre(OP_create_array, "a"); o->a[1] = 0; o->a[5] = 0; }
-    else if (lane == "delete" || lane == "names" || lane == "tree" || lane == "durable") {
+    else if (lane == "delete" || lane == "names" || lane == "idhist" || lane == "tree" || lane == "durable") {
         Op *o = pre(OP_create_array, "a"); o->a[1] = 0; o->a[5] = 0;
         o = pre(OP_create_section, "a"); o->a[1] = 0;
         o = pre(OP_create_tag, "a"); o->a[1] = 0;
